@@ -12,7 +12,8 @@ from coqrun import z  # noqa: E402
 
 PID = "C19"
 TARGETS = ["Properties/C19.vo"]
-MODEL_TARGETS = ["Model/Stdlib.vo", "Model/InstrOf.vo", "Proofs/C19_Routines.vo"]
+MODEL_TARGETS = ["Model/Stdlib.vo", "Model/InstrOf.vo", "Proofs/C19_Routines.vo", "Proofs/C19_Not.vo", "Proofs/C19_Stack.vo",
+                 "Proofs/C19_NotStack.vo"]
 ASSUMPTIONS = [
     "PARTIAL: theorems for div and mod only (signed division truncating towards zero, remainder with the sign of "
     "the dividend, zero divisor gives zero, results are 16-bit words, quotient*divisor+remainder recomposes the "
@@ -129,13 +130,17 @@ def oracle(rng, conv, f, args):
     return None
 
 
-ROUTINES = {"size": "size_reg_code", "ord": "ord_reg_code"}
+# (convention, label) -> Coq term of the instruction list, given the address the routine is loaded at
+ROUTINES = {("reg", "size"): lambda b: "size_reg_code", ("reg", "ord"): lambda b: "ord_reg_code",
+            ("reg", "not"): lambda b: "(not_reg_code %d)" % b,
+            ("stack", "size"): lambda b: "size_stack_code", ("stack", "ord"): lambda b: "ord_stack_code",
+            ("stack", "not"): lambda b: "(not_stack_code %d)" % b}
 RHEADER = """From Coq Require Import ZArith List.
 From Hera.Lib Require Import Py Machine.
 From Hera.Gen Require Import Ops.
 From Hera.Spec Require Import ISA.
 From Hera.Model Require Import InstrOf.
-From Hera.Proofs Require Import C19_Routines.
+From Hera.Proofs Require Import C19_Routines C19_Not C19_Stack C19_NotStack.
 Import ListNotations.
 Open Scope Z_scope.
 Definition keyof (p : opname * list Z) : list Z := match instr_of (fst p) (snd p) with Some i => instr_key i | None => [] end.
@@ -143,19 +148,22 @@ Definition flat (l : list (list Z)) : list Z := concat (map (fun k => Z.of_nat (
 """
 
 
-def real_routine(name):
-    """The operations the real parser + preprocessor produce for the register-convention library routine
-    `name`: from its label to its RETURN.  -> [(class name, [int args])] or a string saying why not."""
+def real_routine(conv, name, pad):
+    """The operations the real parser + preprocessor produce for the library routine `name` of convention `conv`,
+    loaded after `pad` user instructions: from its label to its RETURN.
+    -> (address, [(class name, [int args])]) or a string saying why not."""
     from hera.data import Settings
     from hera.loader import load_program
     try:
-        p = load_program("#include <Tiger-stdlib-reg-data.hera>\nHALT()\n#include <Tiger-stdlib-reg.hera>\n", Settings())
+        p = load_program("#include <Tiger-stdlib-%s-data.hera>\n%sHALT()\n#include <Tiger-stdlib-%s.hera>\n"
+                         % (conv, "NOP()\n" * pad, conv), Settings())
     except SystemExit:
-        return "the register-convention library no longer loads"
+        return "the %s-convention library no longer loads" % conv
     if name not in p.symbol_table:
         return "no label %s in the library" % name
-    i, ops = int(p.symbol_table[name]), []
-    while i < len(p.code) and len(ops) < 50:
+    base = int(p.symbol_table[name])
+    i, ops = base, []
+    while i < len(p.code) and len(ops) < 80:
         o = p.code[i]
         if not all(isinstance(a, int) for a in o.args):
             return "non-integer argument in %s" % name
@@ -163,25 +171,30 @@ def real_routine(name):
         i += 1
         if type(o).__name__ == "RETURN":
             break
-    return ops
+    return base, ops
 
 
 def routine_correspondence(disagreements):
-    """The instruction lists the C19_Routines theorems are about are the library's `size` and `ord`."""
+    """The instruction lists the routine theorems are about are the library's routines, wherever they are loaded."""
     import io, contextlib
     n = 0
-    for name, const in ROUTINES.items():
-        with contextlib.redirect_stdout(io.StringIO()), contextlib.redirect_stderr(io.StringIO()):
-            ops = real_routine(name)
-        if isinstance(ops, str):
-            disagreements.append({"what": "routine %s: %s" % (name, ops)})
-            continue
-        term = "[%s]" % "; ".join("(O_%s, [%s])" % (ec.cname_ident(c), "; ".join(z(a) for a in args)) for c, args in ops)
-        outs = coqrun.eval_cases("C19r_" + name, RHEADER, ["flat (map keyof %s)" % term, "flat (map instr_key %s)" % const], shard=10)
-        n += 1
-        if outs[0] != outs[1] or 0 in outs[0][:1] or not outs[0]:
-            disagreements.append({"what": "the library routine %s is no longer the instruction list %s of Proofs/C19_Routines.v" % (name, const),
-                                  "impl": ops, "impl_keys": outs[0], "model_keys": outs[1]})
+    for (conv, name), const in ROUTINES.items():
+        for pad in (0, 7, 300):
+            with contextlib.redirect_stdout(io.StringIO()), contextlib.redirect_stderr(io.StringIO()):
+                got = real_routine(conv, name, pad)
+            if isinstance(got, str):
+                disagreements.append({"what": "routine %s/%s: %s" % (conv, name, got)})
+                break
+            base, ops = got
+            term = "[%s]" % "; ".join("(O_%s, [%s])" % (ec.cname_ident(c), "; ".join(z(a) for a in args)) for c, args in ops)
+            outs = coqrun.eval_cases("C19r_%s_%s_%d" % (conv, name, pad), RHEADER,
+                                     ["flat (map keyof %s)" % term, "flat (map instr_key %s)" % const(base)], shard=10)
+            n += 1
+            if outs[0] != outs[1] or 0 in outs[0][:1] or not outs[0]:
+                disagreements.append({"what": "the %s-convention library routine %s (loaded at %d) is no longer the instruction list %s "
+                                              "of the C19 routine theorems" % (conv, name, base, const(base)),
+                                      "impl": ops, "impl_keys": outs[0], "model_keys": outs[1]})
+                break
     return n
 
 
@@ -235,8 +248,8 @@ def correspondence(ctx, model_available=True):
                 spec_failures.append({"what": p, "function": f, "args": args, "convention": conv})
     return {
         "cases": len(pairs) + st["calls"], "nontrivial": st["calls"],
-        "rule": "the operations the real loader produces for the register-convention `size` and `ord` vs the instruction lists of "
-                "Proofs/C19_Routines.v (through Model/InstrOf); div/mod helpers vs Model/Stdlib.v on the grid of edge values (0, +-1, +-2, +-32768, 32767, ...) and random "
+        "rule": "the operations the real loader produces for `size`, `ord` and `not` of both conventions, loaded at three different "
+                "addresses, vs the instruction lists of the routine theorems (through Model/InstrOf); div/mod helpers vs Model/Stdlib.v on the grid of edge values (0, +-1, +-2, +-32768, 32767, ...) and random "
                 "words; every library function in both conventions called from a generated caller on the real interpreter "
                 "with edge and random arguments (negative numbers, zero divisors, empty / equal / prefix / unequal strings, "
                 "out-of-range substring bounds) under random register contents: result vs an independent computation, "
